@@ -35,12 +35,15 @@ def np2tp(dt):
 
 
 class V:
-    __slots__ = ("name", "arrs", "kind", "mag", "clean", "seq", "decl", "nondet")
+    __slots__ = ("name", "arrs", "kind", "mag", "clean", "seq", "decl", "nondet", "ddshape")
 
-    def __init__(self, name, arrs, kind, mag=INPUT_MAG, clean=True, seq=False, decl=None, nondet=False):
+    def __init__(self, name, arrs, kind, mag=INPUT_MAG, clean=True, seq=False, decl=None, nondet=False, ddshape=False):
         self.name, self.arrs, self.kind = name, arrs, kind
         self.mag, self.clean, self.seq, self.decl = mag, clean, seq, decl
         self.nondet = nondet
+        # the SHAPE observed at generation time depends on input data (NonZero and anything computed from it): it must
+        # not be declared as a static shape (a declaration the optimizer may rely on would be a lie for other inputs)
+        self.ddshape = ddshape
 
     @property
     def a(self):
@@ -59,8 +62,8 @@ class V:
         return self.arrs[0].ndim
 
     def static(self):
-        """True if the shape is the same under all bindings."""
-        return all(x.shape == self.arrs[0].shape for x in self.arrs)
+        """True if the shape is the same under all bindings (and does not depend on input data)."""
+        return not self.ddshape and all(x.shape == self.arrs[0].shape for x in self.arrs)
 
     def is_float(self):
         return self.dtype.kind == "f"
@@ -235,7 +238,8 @@ class Gen:
                     if a.dtype.kind == "f" and a.size and not np.isfinite(a).all():
                         c = False
             v = V(o, arrs, "node", mag=in_mag if mag is None else mag, clean=c, seq=seq,
-                  nondet=(any(i.nondet for i in ins if i is not None) and tag not in ("Shape", "Size")) or bool(getattr(self, "_mark_nondet", False)))
+                  nondet=(any(i.nondet for i in ins if i is not None) and tag not in ("Shape", "Size")) or bool(getattr(self, "_mark_nondet", False)),
+                  ddshape=tag in ("NonZero", "Compress", "Unique") or any(i.ddshape for i in ins if i is not None) or bool(getattr(self, "_mark_dd", False)))
             vs.append(v)
             self.vals.append(v)
         if tag:
@@ -1217,11 +1221,14 @@ def op_if(g, max_body=4):
     nd = any(v.nondet for sub, _ in branches for v in sub.vals) or any(
         (g.lookup(r) is not None and g.lookup(r).nondet) for sub, _ in branches for r in sub.captured)
     g._mark_nondet = nd
+    g._mark_dd = any(v.ddshape for sub, _ in branches for v in sub.vals) or any(
+        (g.lookup(r) is not None and g.lookup(r).ddshape) for sub, _ in branches for r in sub.captured)
     try:
         v = g.add_nodes([node], [out], [cond], mag=max(b[1][0].mag for b in branches),
                         clean=all(b[1][0].clean for b in branches), tag="If")
     finally:
         g._mark_nondet = False
+        g._mark_dd = False
     return v
 
 
@@ -1261,10 +1268,12 @@ def op_loop(g, max_body=3):
     outs = [g.fresh("t")] + ([g.fresh("t")] if scan is not None else [])
     node = oh.make_node("Loop", [M.name, condv.name if condv else "", x.name], outs, body=body)
     g._mark_nondet = any(v.nondet for v in sub.vals) or any((g.lookup(r) is not None and g.lookup(r).nondet) for r in sub.captured)
+    g._mark_dd = any(v.ddshape for v in sub.vals) or any((g.lookup(r) is not None and g.lookup(r).ddshape) for r in sub.captured)
     try:
         vs = g.add_nodes([node], outs, [M, x] + ([condv] if condv else []), mag=x.mag * 64 + 64, tag="Loop")
     finally:
         g._mark_nondet = False
+        g._mark_dd = False
     return vs[0] if isinstance(vs, list) else vs
 
 
